@@ -196,6 +196,8 @@ pub struct ExtState {
     /// number of calls served (reads, mutations)
     pub n_reads: u64,
     pub n_writes: u64,
+    /// (actor, path) of every put_if_not_exists that took effect
+    pub applied_puts: Vec<(usize, String)>,
 }
 
 impl ExtState {
@@ -438,6 +440,7 @@ impl ExternalManifestStore for MemExt {
         e_tag: Option<String>,
     ) -> Result<()> {
         let (b, p) = (base_uri.to_string(), path.to_string());
+        let actor = self.actor;
         self.run(
             Verb::ExtPutIfNotExists,
             format!("ext:{base_uri}@{version}={path}"),
@@ -448,6 +451,7 @@ impl ExternalManifestStore for MemExt {
                         location!(),
                     ));
                 }
+                g.applied_puts.push((actor, p.clone()));
                 g.write(&b, version, ExtEntry { path: p, size, e_tag });
                 Ok(())
             },
@@ -839,6 +843,41 @@ pub async fn snap_all(t: &Tbl) -> Result<BTreeMap<u64, VersionSnap>> {
         out.insert(v.version, snap(&d).await?);
     }
     Ok(out)
+}
+
+/// Root-cause monitor for the external manifest protocol: a writer whose `put_if_not_exists` took
+/// effect but was answered with an error (reply lost) must not treat its commit as failed. The
+/// monitor fires when such a writer afterwards deletes the very staging manifest it committed
+/// (`ExternalManifestCommitHandler::commit`'s conflict path). Call after every released call;
+/// the store's op log must be enabled.
+#[derive(Default)]
+pub struct LostReplyWatch {
+    lost: Mutex<Vec<(usize, String)>>,
+}
+
+impl LostReplyWatch {
+    pub fn observe(&self, t: &Tbl, p: &vstore::sched::PointRec) -> Option<String> {
+        let log = t.env.store.take_log();
+        if p.call().verb == Verb::ExtPutIfNotExists && p.ans() == Answer::FailAfter {
+            if let Some((a, path)) = t.ext.state().applied_puts.last() {
+                if *a == p.actor() {
+                    self.lost.lock().unwrap().push((*a, path.clone()));
+                }
+            }
+        }
+        if p.call().verb == Verb::Delete {
+            if let Some(rec) = log.iter().rev().find(|r| r.actor == p.actor() && r.call.verb == Verb::Delete) {
+                if self.lost.lock().unwrap().iter().any(|(a, s)| *a == rec.actor && *s == rec.call.path) {
+                    return Some(format!(
+                        "actor {} got an error for a put_if_not_exists that took effect (reply lost) and then deleted the staging manifest {} it had committed",
+                        rec.actor,
+                        norm_name(&rec.call.path)
+                    ));
+                }
+            }
+        }
+        None
+    }
 }
 
 /// An external-store entry whose object does not exist (the store "points into the void").
